@@ -202,6 +202,9 @@ func (m *Monitor) onDrop(from, to int, msg *gpbft.GMessage) {}
 
 func (m *Monitor) onGST() {
 	m.gstSeen = true
+	// the livelock detector measures stagnation AFTER stabilisation only: before it participants may
+	// legitimately wait (and rebroadcast) for as long as the network keeps them apart
+	m.lastChangeEv, m.alarmsSinceChange, m.lastChangeAt = m.w.Events, 0, m.w.now
 	for _, h := range m.w.Part {
 		if h == nil || h.m.Kind != Honest {
 			continue
@@ -294,6 +297,17 @@ func (m *Monitor) checkStagnation() {
 		}
 		for inst := range h.started {
 			if _, ok := h.decided[inst]; ok {
+				continue
+			}
+			// waiting for an honest member that has not started this instance yet (staggered start)
+			// consumes no rounds and ends when it starts: not a livelock
+			allStarted := true
+			for _, o := range w.Part {
+				if o != nil && o.m.Kind == Honest && !o.started[inst] {
+					allStarted = false
+				}
+			}
+			if !allStarted {
 				continue
 			}
 			m.find("C06", "C06 no honest participant changed round or step over thousands of events after stabilisation while a started one is undecided (livelock)",
